@@ -91,3 +91,144 @@ func vxH_C12_previousRevert() {
 	coll2.Close()
 	store2.Close()
 }
+
+func init() { vxRegister("vxH_C12_continue", vxH_C12_continue) }
+
+func vxCopyNode(n *vxNode) *vxNode {
+	c := vxNewNode()
+	c.layers = append(c.layers, n.layers...)
+	for name, k := range n.kids {
+		c.kids[name] = vxCopyNode(k)
+	}
+	return c
+}
+
+// vxH_C12_continue: history with child collections and with a continuation
+// after the revert. Rounds write the fixed key at top level, in a child
+// collection, or both; every persistence round and every revert appends one
+// entry to the list of contents the store has exposed. A symbolic number of
+// steps back is walked (each content checked), the store is reverted to
+// that snapshot, optionally reverted once more to its own current snapshot,
+// then either reopened or continued in place (Store.OpenCollection), one
+// more round is executed, and the whole history is walked from the current
+// snapshot: newest first exactly the exposed contents, then nil; the same
+// after a final close and reopen.
+func vxH_C12_continue() {
+	rounds := 2
+	if vxTier() == 1 {
+		rounds = 3
+	}
+	fs := vxNewFS()
+	so := vxStoreOptions(fs)
+	po := StorePersistOptions{}
+	store, coll, err := OpenStoreCollection(fs.dir, so, po)
+	vxAssert("open-ok", err == nil)
+	ref := vxNewNode()
+	names := []string{"a"}
+	none := map[string]bool{}
+	var K vxKey
+	K.n = 1
+	K.b[0] = 'k'
+	kb := vxKeyBytes(K)
+	var exposed []*vxNode
+	round := func(c Collection) {
+		shape := vxChoose(3) // 0 top, 1 child, 2 both
+		b, berr := c.NewBatch(4, 64)
+		vxAssert("newbatch-ok", berr == nil)
+		if shape != 1 {
+			ents := vxFixedSet()
+			vxFillBatch(b, ents)
+			ref.layers = append(ref.layers, ents)
+		}
+		if shape != 0 {
+			cb, cerr := b.NewChildCollectionBatch("a", BatchOptions{TotalOps: 2, TotalKeyValBytes: 16})
+			vxAssert("childbatch-ok", cerr == nil)
+			ents := vxFixedSet()
+			vxFillBatch(cb, ents)
+			if ref.kids["a"] == nil {
+				ref.kids["a"] = vxNewNode()
+			}
+			ref.kids["a"].layers = append(ref.kids["a"].layers, ents)
+		}
+		vxAssert("executebatch-ok", c.ExecuteBatch(b, WriteOptions{}) == nil)
+		b.Close()
+		vxDrain(c)
+		exposed = append(exposed, vxCopyNode(ref))
+	}
+	// walk: from the store's current snapshot, `steps` steps back (all the
+	// way when steps < 0); returns the snapshot reached (caller closes).
+	walk := func(tag string, steps int) Snapshot {
+		cur, cerr := store.Snapshot()
+		vxAssert(tag+"-store-snapshot-ok", cerr == nil)
+		for i := 0; ; i++ {
+			vxAssert(tag+"-history-not-longer-than-exposed", i < len(exposed))
+			if i >= len(exposed) {
+				break
+			}
+			vxCheckTree(tag+"-walked-back", cur, exposed[len(exposed)-1-i], K, kb, names, none)
+			if i == steps {
+				return cur
+			}
+			prev, perr := store.SnapshotPrevious(cur)
+			vxAssert(tag+"-previous-ok", perr == nil)
+			cur.Close()
+			if prev == nil {
+				vxAssert(tag+"-history-ends-only-at-the-beginning", i == len(exposed)-1)
+				return nil
+			}
+			cur = prev
+		}
+		cur.Close()
+		return nil
+	}
+	for r := 0; r < rounds; r++ {
+		round(coll)
+	}
+	coll.Close()
+	depth := vxChoose(len(exposed))
+	target := walk("first", depth)
+	vxAssert("target-reached", target != nil)
+	if target == nil {
+		return
+	}
+	if depth > 0 {
+		vxAssert("revert-ok", store.SnapshotRevert(target) == nil)
+		ref = vxCopyNode(exposed[len(exposed)-1-depth])
+		exposed = append(exposed, vxCopyNode(ref))
+	}
+	target.Close()
+	if vxChoose(2) == 1 {
+		// the store's own current snapshot is a legal revert target
+		cur, _ := store.Snapshot()
+		vxAssert("revert-to-current-ok", store.SnapshotRevert(cur) == nil)
+		cur.Close()
+		exposed = append(exposed, vxCopyNode(ref))
+	}
+	if vxChoose(2) == 1 {
+		store.Close()
+		vxQuiesce()
+		store, coll, err = OpenStoreCollection(fs.dir, so, po)
+		vxAssert("reopen-ok", err == nil)
+	} else {
+		coll, err = store.OpenCollection(so, po)
+		vxAssert("opencollection-ok", err == nil)
+	}
+	cs, cserr := coll.Snapshot()
+	vxAssert("coll-snapshot-ok", cserr == nil)
+	vxCheckTree("continued-coll", cs, ref, K, kb, names, none)
+	cs.Close()
+	round(coll)
+	if s := walk("continued", -1); s != nil {
+		s.Close()
+	}
+	coll.Close()
+	store.Close()
+	vxQuiesce()
+	store, coll, err = OpenStoreCollection(fs.dir, so, po)
+	vxAssert("final-reopen-ok", err == nil)
+	if s := walk("reopened", -1); s != nil {
+		s.Close()
+	}
+	coll.Close()
+	store.Close()
+}
